@@ -66,6 +66,32 @@ func verifRegisteredPickerBuilder() (pb base.PickerBuilder) {
 	return got
 }
 
+// verifRegisteredHealthCheck reads base.Config.HealthCheck of the balancer builder registered under Name
+// (newBuilder passes base.Config{HealthCheck: true}): 1 true, 0 false, -1 not observable.
+func verifRegisteredHealthCheck() (res int) {
+	defer func() {
+		if recover() != nil {
+			res = -1
+		}
+	}()
+	b := balancer.Get(Name)
+	if b == nil {
+		return -1
+	}
+	v := reflect.ValueOf(b)
+	if v.Kind() != reflect.Ptr {
+		return -1
+	}
+	f := v.Elem().FieldByName("config").FieldByName("HealthCheck")
+	if !f.IsValid() || f.Kind() != reflect.Bool {
+		return -1
+	}
+	if f.Bool() {
+		return 1
+	}
+	return 0
+}
+
 type verifLive struct {
 	picker balancer.Picker
 	p      *p2cPicker // nil for the error picker
@@ -196,5 +222,5 @@ func verifMulti(raw json.RawMessage) any {
 		st.Pickers = verifMultiDump(live, all)
 		steps = append(steps, st)
 	}
-	return map[string]any{"multi": true, "steps": steps}
+	return map[string]any{"multi": true, "healthcheck": verifRegisteredHealthCheck(), "steps": steps}
 }
